@@ -1,5 +1,5 @@
 PROP = {
-    "modules": ["Discv5Model.Props.wip.C20"],
+    "modules": ["Discv5Model.Props.C20"],
     "lemma_modules": [],
     "engines": [{"name": "talk", "quick": 150, "thorough": 3000}],
     "rule": "talk engine: one real Service (scripted handler); up to ~14 TALKREQs delivered from 5 peers / several "
@@ -14,6 +14,6 @@ PROP = {
     "engine": "talk",
     "design_ref": "DESIGN.md section 5 / C20",
     "technique": "Lean 4 theorems over the TalkRequest life-cycle model + correspondence run through the real Service",
-    "level_text": "TODO (wip)",
-    "level_note": "TODO",
+    "level_text": "Proof: over the life-cycle grammar of a TalkRequest object (respond then drop, or drop) every life cycle emits exactly one TALKRESP with the request id to the node address it came from - the application payload if it responded, the empty payload otherwise - and never a second one; with the channel closed (after shutdown) respond returns the error value and drop emits nothing, no state raises (exactly_one, after_shutdown). Tied to /repo by delivering concurrent TALKREQs through the real Service (scripted handler) with the application responding / dropping / holding in random order incl. after shutdown, counting the responses per request id.",
+    "level_note": "Trusted: Lean kernel, extract.py, harness/driver. That respond(self) is followed by Drop is Rust ownership (reflected in the life-cycle grammar). The tie model<->code is a sampled differential check.",
 }
